@@ -1576,9 +1576,11 @@ class MacroFunction(Macro):
                         tok.prev_white = last[-1].prev_white
                         toadd = last[:-1] + [tok] + nexttok[1:]
                         if toadd[0].prev_white != prev_white:
+                            # Copy: the token may belong to the shared tree
+                            # of a header.
                             cp = copy(toadd[0])
                             cp.prev_white = prev_white
-                            toadd[0].prev_white = prev_white
+                            toadd[0] = cp
                         res_tokens.extend(toadd)
                     elif len(nexttok) > 0:
                         res_tokens.extend(nexttok)
